@@ -16,7 +16,7 @@ FUNCTIONS = [DelayModel.generate_delay, DelayModel._create_random_value_from_run
              Task._calc_task_delay, Scheduler._update_current_plan]
 META = {
     'bounds': {'C15.runtime': '0..6 (enumerated by branching; the property quantifies over a bounded integer range including 0)', 'C15.draws': '3 samples per generator call, unbounded ints (uniform clamped to [low, high])',
-               'C15.prob': [0.0, 0.5, 1.0], 'C15.u': [0.0, 0.5, 0.75], 'C15.degrees': 'all four', 'C15.seeds': [0, 7, 20], 'C15.dists': ['normal', 'poisson', 'uniform'],
+               'C15.prob': [0.0, 0.5, 1.0], 'C15.u': [0.0, 0.5, 0.75], 'C15.degrees': 'all four', 'C15.seeds': '0, 7, 20; a second seed with its own stream is used after the first in the same interpreter', 'C15.dists': ['normal', 'poisson', 'uniform'],
                'C15.do_work': 'duration 0..3, injected delay 0..3'},
     'outside_bounds': ["numpy's actual distributions (replaced by the E7 contract)", 'non-integer draws (int() of a symbolic float is enumerated, not decided)',
                        'sample counts other than 3'],
@@ -134,6 +134,23 @@ def gen_tag(dist, deg, pk, r, uk, x0, x1, x2, y0, y1, y2):
         return f'C15/raises-on-second-call/{type(ex).__name__}/{dname}'
     if out3 != out:
         return f'C15/not-deterministic/same-model-asked-twice/{dname}'
+    # a model created with ANOTHER seed draws from that seed's own stream (here: y0..y2), whatever was drawn before
+    other = {0: 7, 7: 20, 20: 0}.get(seed, 0)
+    SEEDED[other] = {'u': u, 'u2': u2, 'x': [y0, y1, y2]}
+    try:
+        out4 = DelayModel(prob, dname, DEG[deg], seed=other).generate_delay(r, 3)
+    except Exception as ex:
+        return f'C15/raises-on-second-call/{type(ex).__name__}/{dname}'
+    own = [r]
+    if dname == 'normal':
+        own += [y0, y1, y2]
+    elif dname == 'poisson':
+        own += [(y if y >= 0 else 0) for y in (y0, y1, y2)]
+    else:
+        hi = int((r + DEG[deg].value * r) // 1)
+        own += [(r if y < r else (hi if y > hi else y)) for y in (y0, y1, y2)]
+    if not any(out4 == v for v in own):
+        return f'C15/not-deterministic/value-drawn-under-another-seed-returned/{dname}'
     if out < r:
         return f'C15/shortened/{dname}'
     if (deg == 3 or pk == 0 or r == 0) and out != r:
